@@ -357,6 +357,26 @@ def gen_routes():
 # ------------------------------------------------------------------------------------------------
 # rule-breaking members (C08 plants) and a few special shapes
 # ------------------------------------------------------------------------------------------------
+def gen_bulk_modules():
+    """Route modules registered in bulk with `bp.routes(from![crate::bulkN])`."""
+    for m in (1, 2):
+        w(f"pub mod bulk{m} {{")
+        w("    use crate::rt;")
+        for r in ("a", "b"):
+            name = f"bk{m}_{r}"
+            ident = name.upper()
+            path = f"/bulk{m}/{r}"
+            w(f"    #[pavex::get(path = \"{path}\", id = \"{ident}\")]")
+            w(f"    pub fn {name}() -> pavex::Response {{")
+            w(f"        rt::call(\"handler\", \"{ident}\", &[]);")
+            w(f"        rt::respond(\"h\", \"{ident}\")")
+            w("    }")
+            catalog.append({"id": ident, "kind": "handler", "macro": "route", "inputs": [], "fallible": False, "err": None,
+                            "path": path, "methods": ["GET"], "module": f"crate::bulk{m}"})
+        w("}")
+    w()
+
+
 def gen_plants():
     w("""
 // ---- dependency cycle
@@ -515,6 +535,7 @@ def main():
     gen_observers()
     gen_fallbacks()
     gen_routes()
+    gen_bulk_modules()
     gen_plants()
     # plug-ins: engines/e2e/gen_app_extra_*.py, each exposing gen(w, catalog) (see EXTENDING.md)
     import glob
